@@ -312,9 +312,11 @@ fn worker(i: usize, of: usize, after: Option<(usize, usize)>) -> i32 {
     0
 }
 
+/// messages carry the generation of the child that sent them: a killed child's reader thread
+/// reports its end of stream after the replacement has been started
 enum Msg {
-    Line(usize, String),
-    Closed(usize),
+    Line(usize, usize, String),
+    Closed(usize, usize),
 }
 
 pub fn run_check(args: &[String], replay: Option<Value>) -> i32 {
@@ -347,9 +349,22 @@ pub fn run_check(args: &[String], replay: Option<Value>) -> i32 {
         let b = &bases()[bi];
         let sets = vec![fs];
         let e = 0;
-        // the replay itself runs under the same budget; a true hang has to be interrupted by hand
         println!("replay: base {:?}\n        faults {:?}", b, sets[e]);
-        let out = exec(b, &sets[e], key);
+        // the replay runs under the same budgets: 10^6 RHS calls, and 20 s of wall-clock time
+        let (txr, rxr) = mpsc::channel();
+        {
+            let (b, fs, key) = (b.clone(), sets[e].clone(), key.to_string());
+            std::thread::spawn(move || {
+                let _ = txr.send(exec(&b, &fs, &key));
+            });
+        }
+        let out = match rxr.recv_timeout(Duration::from_secs(20)) {
+            Ok(o) => o,
+            Err(_) => {
+                println!("replay: VIOLATED [hang]: no return within 20 s of wall-clock time");
+                std::process::exit(1);
+            }
+        };
         for v in &out.violations {
             println!("replay: VIOLATED [{}]: {}", v.sig["check"], v.msg);
         }
@@ -362,7 +377,12 @@ pub fn run_check(args: &[String], replay: Option<Value>) -> i32 {
     let nw = crate::util::workers();
     let exe = std::env::current_exe().expect("own path");
     let (tx, rx) = mpsc::channel::<Msg>();
+    let generation = std::cell::Cell::new(0usize);
+    let current: std::cell::RefCell<Vec<usize>> = std::cell::RefCell::new(vec![0; nw]);
     let spawn = |i: usize, after: Option<(usize, usize)>, tx: mpsc::Sender<Msg>| {
+        let gen = generation.get() + 1;
+        generation.set(gen);
+        current.borrow_mut()[i] = gen;
         let mut cmd = Command::new(&exe);
         cmd.arg("C04").arg("--worker").arg(i.to_string()).arg(nw.to_string());
         if let Some((b, e)) = after {
@@ -374,14 +394,14 @@ pub fn run_check(args: &[String], replay: Option<Value>) -> i32 {
             for line in BufReader::new(so).lines() {
                 match line {
                     Ok(l) => {
-                        if tx.send(Msg::Line(i, l)).is_err() {
+                        if tx.send(Msg::Line(i, gen, l)).is_err() {
                             break;
                         }
                     }
                     Err(_) => break,
                 }
             }
-            let _ = tx.send(Msg::Closed(i));
+            let _ = tx.send(Msg::Closed(i, gen));
         });
         child
     };
@@ -407,7 +427,10 @@ pub fn run_check(args: &[String], replay: Option<Value>) -> i32 {
             break;
         }
         match rx.recv_timeout(Duration::from_millis(500)) {
-            Ok(Msg::Line(i, l)) => {
+            Ok(Msg::Line(i, g, _)) | Ok(Msg::Closed(i, g)) if g != current.borrow()[i] => {
+                let _ = i; // a message of a child that has been replaced
+            }
+            Ok(Msg::Line(i, _, l)) => {
                 last_seen[i] = Instant::now();
                 if let Some(rest) = l.strip_prefix("S ") {
                     let mut it = rest.split(' ');
@@ -426,7 +449,7 @@ pub fn run_check(args: &[String], replay: Option<Value>) -> i32 {
                     finished[i] = true;
                 }
             }
-            Ok(Msg::Closed(i)) => {
+            Ok(Msg::Closed(i, _)) => {
                 if !finished[i] {
                     // worker died without finishing: abnormal end of the case in flight
                     if let Some(mut c) = children[i].take() {
